@@ -61,13 +61,29 @@ class AbstractQuery(c.AbstractCondition, ABC):
 
     def __invert__(self):
         """
-        Take ~ of this object.
-
-        The object is copied and its condition is prepended
-        with a 'not'.
+        Take ~ of this object: a query for exactly those fits
+        which this query does not match.
         """
-        inverted = copy.deepcopy(self)
-        inverted._condition = NotCondition(
-            self._condition
-        )
-        return inverted
+        return InvertedQuery(self)
+
+
+class InvertedQuery(AbstractQuery):
+    def __init__(self, query):
+        """
+        The complement of a query: every fit which is not matched by it
+        (including fits for which the original condition is NULL).
+
+        Parameters
+        ----------
+        query
+            Any object with a fit_query (a query or a junction of queries)
+        """
+        super().__init__()
+        self._query = query
+
+    @property
+    def fit_query(self) -> str:
+        return f"SELECT id FROM fit WHERE id NOT IN ({self._query.fit_query})"
+
+    def __invert__(self):
+        return self._query
